@@ -42,6 +42,7 @@ static inline bool gv_IsInteger(const struct gv_str *s)
   __CPROVER_assume(GV_INTEGRAL(gv_lit_abs));
   return acc;
 }
+#define GV_ISFINITE(x) __CPROVER_isfinited(x)
 #define GV_UCHAR(x) ((unsigned char)((x) & 0xFF))
 /* the accepted literal is representable in int: -2147483648 .. 2147483647 */
 #define GV_LIT_FITS_INT (gv_lit_neg ? gv_lit_abs <= 2147483648.0 : gv_lit_abs <= 2147483647.0)
@@ -78,15 +79,18 @@ static inline int gv_isdigit(int c)
 #define GHOSTS gv_rec_arg, gv_rec_accept, gv_lit_abs, gv_lit_neg, gv_conv_calls
 //@ end
 
-/* toDouble: true exactly when IsFloat accepts s; then d is the value of the literal; otherwise d is untouched and
-   atof is not called. */
+/* toDouble: true exactly when IsFloat accepts s AND the literal has a finite value (gv_lit_abs is the magnitude atof
+   returns: +inf for a literal like 1e999 that overflows double -- a number the later stages cannot use, e.g. the
+   reduction of an angle to one turn); then d is that value; otherwise d is untouched.  atof is called only on an
+   accepted string. */
 //@ contract CoreParser_toDouble
 __CPROVER_requires(WF_STR(s) && __CPROVER_w_ok(d__p, sizeof(double)))
 __CPROVER_assigns(*d__p, GHOSTS)
-__CPROVER_ensures(gv_rec_arg == s && __CPROVER_return_value == gv_rec_accept)
+__CPROVER_ensures(gv_rec_arg == s && __CPROVER_return_value == (gv_rec_accept && __CPROVER_isfinited(gv_lit_abs)))
+__CPROVER_ensures(__CPROVER_return_value ==> __CPROVER_isfinited(*d__p))
 __CPROVER_ensures(gv_lit_abs >= 0 && (!gv_lit_neg || (0 <= gv_k0 && gv_k0 < s->len && s->buf[gv_k0] == '-')))   /* facts of the recogniser stub, passed on to callers that use this contract */
 __CPROVER_ensures(__CPROVER_return_value ==> (*d__p == (gv_lit_neg ? -gv_lit_abs : gv_lit_abs) && gv_conv_calls == __CPROVER_old(gv_conv_calls) + 1))
-__CPROVER_ensures(!__CPROVER_return_value ==> (gv_conv_calls == __CPROVER_old(gv_conv_calls) &&
+__CPROVER_ensures(!__CPROVER_return_value ==> (gv_conv_calls == __CPROVER_old(gv_conv_calls) + (gv_rec_accept ? 1 : 0) &&
                   (*d__p == __CPROVER_old(*d__p) || __CPROVER_old(*d__p) != __CPROVER_old(*d__p))))
 //@ entry CoreParser_toDouble
 #if GV_HSEL == 1
